@@ -1036,16 +1036,6 @@ func (w *World) execSnapRevert(sh *Handle) bool {
 	} else {
 		target = NewMState()
 	}
-	if w.cmpViaSet() {
-		for _, mc := range target.Colls {
-			if mc.Cmp != CmpBytes {
-				// without the callback a snapshot has no documented way to get its
-				// comparators back after its own FlushRevert: not generated
-				w.ev["skipped_snaprevert_cmpviaset"]++
-				return true
-			}
-		}
-	}
 	w.setCmpLoad(target)
 	img := w.file.Image()
 	logLen := len(w.file.Log)
@@ -1056,6 +1046,9 @@ func (w *World) execSnapRevert(sh *Handle) bool {
 	if sh.rev > 0 {
 		sh.rev--
 	}
+	// without the KeyCompareForCollection callback the application re-supplies the
+	// comparators of the reverted snapshot the same way as after any other load
+	w.installCmps(sh.st, target)
 	sh.m = target.Clone()
 	if !bytes.Equal(img, w.file.B) {
 		w.failf("snapshot-revert-wrote", "FlushRevert on a snapshot changed the file")
